@@ -122,11 +122,17 @@ def unm_justified_lit(t):
 # ------------------------------------------------------------------------------------------
 class Run(object):
     def __init__(self):
-        self.cases = []; self.lines = []; self.pend = []
+        self.cases = []; self.lines = []; self.pend = []; self.multi = []
     def add(self, case, line, post=None):
         """case.impl already set; the model output for `line` (through `post`) becomes case.model"""
         self.cases.append(case); self.lines.append(line); self.pend.append((case, post))
         return case
+    def add_multi(self, case, lines, post):
+        """a history: several driver lines, one case; `post(outs, case)` builds case.model"""
+        self.cases.append(case)
+        for i, l in enumerate(lines):
+            self.lines.append(l); self.pend.append((None, None))
+        self.multi.append((case, len(self.lines) - len(lines), list(lines), post))
     def add_oracle(self, case):
         self.cases.append(case); return case
     def fill(self):
@@ -135,6 +141,8 @@ class Run(object):
             if c is None:
                 continue
             c.model = post(o, c) if post else o
+        for (c, start, ls, post) in self.multi:
+            c.model = post(outs[start:start + len(ls)], c, ls)
         return self.cases
 
 def post_unm(justified):
@@ -390,7 +398,10 @@ def stream_values(I, R, r, nbatches, per_batch):
             node2 = I.new(k)
             outcome = None
             if cache is None:
-                outcome = 'file does not load (InvalidRegistryFile)'
+                # some value of the batch made the file unloadable: find out whether it is this one
+                st_, after_, text_ = reload_value(I, k, name, set(v) if k.endswith('Set') else v)
+                if after_ != st_:
+                    outcome = '%s (alone in a file: %r)' % (after_ if isinstance(after_, str) and after_ in ('file does not load', 'rejected at reload', 'not written') else 'reloaded as %r' % (after_,), file_value_lines(text_))
             else:
                 try:
                     root2.register(name, node2)
@@ -515,6 +526,385 @@ def stream_names(I, R, r, n):
         R.add(Case({'op': 'split', 'name': t}, impl=si, kind='name', tags=('split',)), 'split\t' + wire.enc(t),
               lambda o, c: None if (o == 'fail' and c.impl is None) else o)
 
+
+# ------------------------------------------------------------------------------------------
+# value tree histories
+# ------------------------------------------------------------------------------------------
+TREE_ALPHA = 'abXY01 "\'\\:#,-é中\x85\t'
+TREE_PR = None
+NETS = ['neta', 'NetB']            # networks the stub world knows
+CHANS = ['#x', '#Y']
+PROBES = [(n, c) for n in (None, 'neta', 'netb') for c in (None, '#x', '#y')]
+
+class _StubIrc(object):
+    def __init__(self, network): self.network = network
+
+def tree_value(r, k, risky=0.08):
+    if k == 'bool': return r.random() < 0.5
+    if k in INT_CLASSES: return r.choice([0, 1, 2, 5, -3, 1000, 12345678901234567890]) if k == 'int' else r.choice([1, 2, 5, 77, 10 ** 20])
+    if k in STR_CLASSES:
+        x = r.random()
+        if x < 0.3: return r.choice(['', '"', "'", '""', "'a'", ' a ', 'a\\', 'a: b', '#x', 'é'])
+        return ''.join(r.choice(TREE_ALPHA) for _ in range(r.randint(0, 8)))
+    n = r.choice([0, 1, 1, 2, 3])
+    if k == 'comma' and n == 0 and r.random() > risky: n = 1
+    out = []
+    for _ in range(n):
+        if r.random() < risky: out.append(r.choice(['', 'a b', 'a,b', ' a', 'b ']))
+        else: out.append(''.join(r.choice('abXY01"\'\\:#-é') for _ in range(r.randint(1, 5))))
+    return out
+
+def tree_text(r, k):
+    x = r.random()
+    if x < 0.5:
+        v = tree_value(r, k)
+        if k == 'bool': return r.choice(['True', 'False', 'on', 'off', 'toggle', ' TRUE '])
+        if k in INT_CLASSES: return str(v)
+        if k in STR_CLASSES: return v
+        return (' ' if k == 'space' else ', ').join(v)
+    return gen_text_for(r, k)
+
+def tree_safe_text(k, text):
+    """texts on which the model's set() answers inside its fragment (a history must stay in step)"""
+    if unm_justified_codec(text): return False
+    if k in STR_CLASSES:
+        t = strset_text(k, text)
+        return not unm_justified_lit(t)
+    if k in INT_CLASSES:
+        return all(ord(ch) < 128 for ch in text) and len(text) < 4000
+    return True
+
+def risky_value(k, v):
+    """is the accepted value v of class k outside the set proved to survive str()->set()"""
+    return finding_of_value(k, 'vt.var', v) is not None
+
+class RealTree(object):
+    """one registered variable of the real registry, driven like the Config plugin drives it"""
+    def __init__(self, I, k, kind, default):
+        self.I = I; self.k = k; self.kind = kind; self.default = default
+        self.boot_fresh()
+    def boot_fresh(self):
+        I = self.I; reg = I.registry; conf = I.conf
+        self.root = reg.Group(); self.root.setName('vt')
+        node = I.new(self.k, self.default)
+        self.dflt = canon_value(node.value)
+        try:
+            if self.kind == 'chan': self.node = conf.registerChannelValue(self.root, 'var', node)
+            elif self.kind == 'net': self.node = conf.registerNetworkValue(self.root, 'var', node)
+            else: self.node = conf.registerGlobalValue(self.root, 'var', node)
+            return 'up'
+        except reg.InvalidRegistryValue:
+            self.node = None
+            return 'refused'
+    def reach(self, w):
+        g = self.node
+        if w[0] == 'base': return g
+        if w[0] == 'net': return g.get(':' + w[1])
+        if w[0] == 'chan': return g.get(w[1])
+        return g.get(':' + w[1]).get(w[2])
+    def guarded(self, f):
+        reg = self.I.registry
+        try:
+            return f()
+        except reg.InvalidRegistryValue:
+            return 'invalid'
+        except reg.NonExistentRegistryEntry:
+            return 'nonexistent'
+    def set_text(self, w, text):
+        def f():
+            self.reach(w).set(text); return 'done'
+        return self.guarded(f)
+    def set_value(self, w, v):
+        def f():
+            self.reach(w).setValue(v); return 'done'
+        return self.guarded(f)
+    def reset_chan(self, n, c):
+        # plugins/Config/plugin.py reset_.channel
+        def f():
+            group = self.node
+            if n is not None:
+                netgroup = group.get(':' + n)
+                changroup = netgroup.get(c)
+                changroup._setValue(netgroup.value, inherited=True)
+            changroup = group.get(c)
+            changroup._setValue(group.value, inherited=True)
+            return 'done'
+        return self.guarded(f)
+    def reset_net(self, n):
+        def f():
+            group = self.node
+            changroup = group.get(':' + n)
+            changroup._setValue(group.value, inherited=True)
+            return 'done'
+        return self.guarded(f)
+    def get(self, n, c):
+        def f():
+            v = self.node.getSpecific(network=n, channel=c)()
+            return 'val\t' + enc_val(canon_value(v))
+        return self.guarded(f)
+    def dump(self):
+        out = []
+        for (name, node) in self.root.getValues(getChildren=True):
+            if hasattr(node, 'value'):
+                out.append((name, canon_value(node.value)))
+        return out
+    def enc_dump(self):
+        d = self.dump()
+        return '-' if not d else ','.join(wire.enc(nm) + '=' + enc_val(v) for nm, v in d)
+    def flags(self):
+        """(name -> _wasSet) of every existing node, by structural walk"""
+        out = {}
+        def walk(g):
+            out[g._name.lower()] = g._wasSet
+            for ch in g._children.values(): walk(ch)
+        walk(self.node)
+        return out
+    def save_load(self):
+        I = self.I; reg = I.registry
+        I.exceptions[:] = []
+        reg.close(self.root, I.fn)
+        text = open(I.fn, encoding='utf-8').read()
+        try:
+            reg.open_registry(I.fn, clear=True)
+        except reg.InvalidRegistryFile:
+            return 'refused', text
+        return self.boot_fresh(), text
+
+def enc_where(w):
+    return '\t'.join([w[0]] + [wire.enc(x) for x in w[1:]])
+
+def affected(w, p):
+    pn, pc = p
+    low = lambda x: None if x is None else x.lower()
+    if w[0] == 'base': return True
+    if w[0] == 'net': return low(pn) == low(w[1])
+    if w[0] == 'chan': return low(pc) == low(w[1])
+    return low(pn) == low(w[1]) and low(pc) == low(w[2])
+
+def stream_tree(I, R, r, n_hist, maxops=14):
+    global TREE_PR
+    TREE_PR = PR(TREE_ALPHA + ''.join(HOT) + 'é中' + ''.join(map(chr, range(128, 0x300))))
+    world = I.world
+    saved_ircs = list(world.ircs)
+    world.ircs[:] = [_StubIrc(n) for n in NETS]
+    try:
+        for h in range(n_hist):
+            k = r.choice(['bool', 'int', 'pos', 'plain', 'plain', 'normalized', 'surrounded', 'space', 'comma', 'comma'])
+            kind = r.choice(['chan'] * 7 + ['net'] * 2 + ['global'])
+            default = tree_value(r, k, risky=0)
+            if k == 'comma' and not default: default = ['d']
+            I.reset_cache()
+            T = RealTree(I, k, kind, default)
+            lines = ['t_boot\t%s\t%s\t%s\t%s\t%s\t%s\t-' % (k, TREE_PR, enc_val(T.dflt), '1' if kind in ('chan', 'net') else '0',
+                                                       '1' if kind == 'chan' else '0', wire.enc('vt.var'))]
+            impl = ['up']
+            ops = []; tags = set(['tree-' + k, 'kind-' + kind]); fails = []; risky = None
+            probes = [p for p in PROBES if (kind == 'chan') or (kind == 'net' and p[1] is None) or p == (None, None)]
+            def probe_all():
+                out = {}
+                for (pn, pc) in probes:
+                    res = T.get(pn, pc)
+                    lines.append('t_get\t%s\t%s\t1\t1' % (wire.enc_opt(pn), wire.enc_opt(pc)))
+                    impl.append(res)
+                    out[(pn, pc)] = res
+                return out
+            def snapshot():
+                impl.append(T.enc_dump()); lines.append('t_dump')
+            dead = False
+            for step in range(r.randint(3, maxops)):
+                if dead: break
+                x = r.random()
+                def pick_where():
+                    if kind == 'global': return ('base',)
+                    y = r.random()
+                    n = r.choice(NETS + ['NETA']); c = r.choice(CHANS + ['#X'])
+                    if kind == 'net': return ('base',) if y < 0.4 else ('net', n)
+                    if y < 0.25: return ('base',)
+                    if y < 0.5: return ('net', n)
+                    if y < 0.75: return ('chan', c)
+                    return ('netchan', n, c)
+                before = probe_all()
+                dump_before = T.dump()
+                if x < 0.40:
+                    w = pick_where(); text = tree_text(r, k)
+                    if not valid_unicode(text) or not tree_safe_text(k, text): continue
+                    res = T.set_text(w, text)
+                    ops.append(['set', list(w), text]); tags.add('set-' + w[0]); tags.add('set-' + res)
+                    lines.append('t_set\t%s\t%s' % (wire.enc(text), enc_where(w))); impl.append(res)
+                    after = probe_all()
+                    if res == 'invalid':
+                        if after != before:
+                            fails.append('rejected set(%r) at %s changed what getSpecific returns: %r -> %r' % (text, w, before, after))
+                        if [d for d in T.dump() if d in dump_before] != dump_before:
+                            fails.append('rejected set(%r) at %s changed stored values' % (text, w))
+                    else:
+                        newv = after.get(_probe_of(w))
+                        _check_locality(fails, w, before, after, 'set(%r)' % text)
+                        _check_follow(fails, T, w, after, probes)
+                elif x < 0.55:
+                    w = pick_where(); v = tree_value(r, k)
+                    risky = risky or finding_of_value(k, 'vt.var', v)
+                    res = T.set_value(w, v)
+                    ops.append(['setv', list(w), v]); tags.add('setv-' + w[0])
+                    lines.append('t_setv\t%s\t%s' % (enc_val(v), enc_where(w))); impl.append(res)
+                    after = probe_all()
+                    if res == 'done':
+                        _check_locality(fails, w, before, after, 'setValue(%r)' % (v,))
+                        _check_follow(fails, T, w, after, probes)
+                elif x < 0.65 and kind == 'chan':
+                    n = r.choice([None] + NETS); c = r.choice(CHANS)
+                    res = T.reset_chan(n, c)
+                    ops.append(['reset_chan', n, c]); tags.add('reset-chan')
+                    lines.append('t_reset_chan\t%s\t%s' % (wire.enc_opt(n), wire.enc(c))); impl.append(res)
+                    after = probe_all()
+                    for p in probes:
+                        if (p[1] or '').lower() != c.lower() and after[p] != before[p]:
+                            fails.append('reset channel %s %s changed getSpecific%r: %s -> %s' % (n, c, p, before[p], after[p]))
+                    if res == 'done' and n is not None and after[(n.lower(), c.lower())] != after[(n.lower(), None)]:
+                        fails.append('after reset channel %s %s the channel value %s differs from the network value %s' % (n, c, after[(n.lower(), c.lower())], after[(n.lower(), None)]))
+                elif x < 0.72 and kind in ('chan', 'net'):
+                    n = r.choice(NETS)
+                    res = T.reset_net(n)
+                    ops.append(['reset_net', n]); tags.add('reset-net')
+                    lines.append('t_reset_net\t%s' % wire.enc(n)); impl.append(res)
+                    after = probe_all()
+                    for p in probes:
+                        if (p[0] or '').lower() != n.lower() and after[p] != before[p]:
+                            fails.append('reset network %s changed getSpecific%r' % (n, p))
+                    if res == 'done' and after[(n.lower(), None)] != after[(None, None)]:
+                        fails.append('after reset network %s its value %s differs from the general value %s' % (n, after[(n.lower(), None)], after[(None, None)]))
+                elif x < 0.80:
+                    # odd probes: unknown network, non-channel, wrong kind
+                    pn = r.choice([None, 'ghost', 'neta', '']); pc = r.choice([None, 'notachan', '#x', '#x,y', ''])
+                    res = T.get(pn or None, pc or None)
+                    nok = pn is not None and world.getIrc(pn) is not None if pn else False
+                    cok = bool(pc) and bool(I.ircutils.isChannel(pc))
+                    ops.append(['get', pn, pc]); tags.add('get-odd'); tags.add('get-' + res.split('\t')[0])
+                    lines.append('t_get\t%s\t%s\t%s\t%s' % (wire.enc_opt(pn or None), wire.enc_opt(pc or None), '1' if nok else '0', '1' if cok else '0'))
+                    impl.append(res)
+                else:
+                    twice = r.random() < 0.4     # a second save before anything reads the reloaded values
+                    res, text = T.save_load()
+                    ops.append(['save_load']); tags.add('save-load'); tags.add('boot-' + res)
+                    lines.append('t_save'); impl.append(wire.enc(''.join(l + '\n' for l in file_value_lines(text))))
+                    lines.append('t_saveload'); impl.append(res)
+                    if res == 'up' and twice:
+                        res, text2 = T.save_load()
+                        ops.append(['save_load']); tags.add('save-load-twice')
+                        lines.append('t_save'); impl.append(wire.enc(''.join(l + '\n' for l in file_value_lines(text2))))
+                        lines.append('t_saveload'); impl.append(res)
+                        if res == 'up' and sorted(file_value_lines(text2)) != sorted(file_value_lines(text)):
+                            fails.append('values read from %r and saved again before being used give %r: set values were dropped' % (file_value_lines(text), file_value_lines(text2)))
+                    if res != 'up':
+                        fails.append('the saved file %r does not load: %s' % (file_value_lines(text), res)); dead = True
+                    else:
+                        after = probe_all()
+                        if after != before:
+                            diff = [(p, before[p], after[p]) for p in probes if before[p] != after[p]]
+                            fails.append('save + load changed getSpecific: %r (file %r)' % (diff[:3], file_value_lines(text)))
+                        if T.dump() != dump_before:
+                            fails.append('save + load changed the set values: %r -> %r' % (dump_before, T.dump()))
+                if not dead:
+                    snapshot()
+            fid = (risky or _hist_risky(k, T, ops)) if k in LIST_CLASSES else None
+            c = Case({'op': 'tree', 'class': k, 'kind': kind, 'default': default, 'ops': ops}, impl='\n'.join(impl),
+                     oracle_ok=not fails, oracle_msg='; '.join(fails[:3]), kind='tree', tags=sorted(tags), finding=fid if fails else None)
+            R.add_multi(c, lines, tree_post)
+    finally:
+        world.ircs[:] = saved_ircs
+
+def tree_post(outs, c, lines):
+    """model output lines for one history"""
+    outs = list(outs)
+    # the model's saved text carries the header: keep the value lines only
+    for i, o in enumerate(outs):
+        if lines[i] == 't_save' and o != 'bad-op':
+            try:
+                outs[i] = wire.enc(''.join(l + '\n' for l in file_value_lines(wire.dec(o))))
+            except Exception:
+                pass
+    return '\n'.join(outs)
+
+def _probe_of(w):
+    if w[0] == 'base': return (None, None)
+    if w[0] == 'net': return (w[1].lower(), None)
+    if w[0] == 'chan': return (None, w[1].lower())
+    return (w[1].lower(), w[2].lower())
+
+def _check_locality(fails, w, before, after, what):
+    for p in before:
+        if not affected(w, p) and before[p] != after[p]:
+            fails.append('%s at %s changed getSpecific%r: %s -> %s' % (what, '/'.join(w), p, before[p], after[p]))
+
+def _check_follow(fails, T, w, after, probes):
+    """unset specific values follow the general one"""
+    if w[0] != 'base':
+        return
+    fl = T.flags()
+    base = after[(None, None)]
+    for (pn, pc) in probes:
+        chain = []
+        if pn is not None: chain.append('vt.var.\\:' + pn)
+        if pc is not None: chain.append('vt.var.' + pc)
+        if pn is not None and pc is not None: chain.append('vt.var.\\:' + pn + '.' + pc)
+        if all(not fl.get(nm.lower(), False) for nm in chain) and after[(pn, pc)] != base:
+            fails.append('unset specific value getSpecific%r = %s does not follow the general value %s' % ((pn, pc), after[(pn, pc)], base))
+
+def _hist_risky(k, T, ops):
+    """finding class of the first list value a set() of the history produced (None = none)"""
+    if k not in LIST_CLASSES: return None
+    for o in ops:
+        if o[0] == 'set':
+            try:
+                node = T.I.new(k); node.set(o[2])
+                f = finding_of_value(k, 'vt.var', canon_value(node.value))
+                if f: return f
+            except Exception:
+                pass
+    return None
+
+# ------------------------------------------------------------------------------------------
+# witnesses of the listed findings, replayed on the implementation every run
+# ------------------------------------------------------------------------------------------
+def reload_value(I, k, name, v):
+    """save one value with the real writer, read the file with the real reader, register afresh"""
+    reg = I.registry
+    I.reset_cache()
+    root = reg.Group(); root.setName('vt')
+    node = I.new(k); root.register(name, node); node.setValue(v)
+    stored = canon_value(node.value)
+    I.exceptions[:] = []
+    reg.close(root, I.fn)
+    text = open(I.fn, encoding='utf-8').read()
+    try:
+        reg.open_registry(I.fn, clear=True)
+    except reg.InvalidRegistryFile as e:
+        return stored, 'file does not load', text
+    root2 = reg.Group(); root2.setName('vt')
+    node2 = I.new(k)
+    try:
+        root2.register(name, node2)
+    except reg.InvalidRegistryValue as e:
+        return stored, 'rejected at reload', text
+    if not any(kk.lower() == ('vt.' + name).lower() for kk in reg._cache.keys()):
+        return stored, 'not written', text
+    return stored, canon_value(node2.value), text
+
+def witness_status(I):
+    st = {}
+    for f in verdict.load_findings(PROPERTY):
+        w = f['witness']; fid = f['id']
+        try:
+            if 'names' in w:
+                back = I.registry.split(I.registry.join(w['names']))
+                st[fid] = (back != w['names'], 'split(join(%r)) = %r' % (w['names'], back))
+            else:
+                stored, after, text = reload_value(I, w['class'], w['name'].split('.', 1)[1], w['value'])
+                st[fid] = (after != stored, '%s value %r written as %r reloads as %r' % (w['class'], stored, file_value_lines(text), after))
+        except Exception as e:
+            st[fid] = (True, 'witness replay raised %r' % (e,))
+    return st
+
 # ------------------------------------------------------------------------------------------
 # run / replay
 # ------------------------------------------------------------------------------------------
@@ -527,6 +917,7 @@ def explore(ctx, scale, seed_stream='c15'):
     stream_texts(I, R, r, 3000 * scale)
     stream_files(I, R, r, 1500 * scale)
     stream_names(I, R, r, 1500 * scale)
+    stream_tree(I, R, r, 250 * scale)
     return I, R
 
 def run(ctx):
@@ -541,7 +932,7 @@ def run(ctx):
         I2, R2 = explore(ctx, 4, seed_stream='c15-search')
         return [c for c in R2.cases if c.oracle_ok is False]
     return verdict.conclude(PROPERTY, ctx.tier, ctx.seed, build, cases, search=search, rule=RULE,
-                            trusted_base=TRUSTED, finding_status={},
+                            trusted_base=TRUSTED, finding_status=witness_status(I),
                             assumptions=['Python asserts enabled', 'strings are valid Unicode scalar sequences (no lone surrogates)',
                                          'integers have fewer digits than sys.get_int_max_str_digits()'],
                             t0=ctx.t0)
